@@ -30,7 +30,8 @@ def _helper():
     global _proc
     if _proc is None or _proc.poll() is not None:
         exe = os.path.join(HELPER_TARGET, 'release/smi-native-helper')
-        if not os.path.exists(exe):
+        src = os.path.join(VERIF, 'smi/native_helper/src/main.rs')
+        if not os.path.exists(exe) or os.path.getmtime(exe) < os.path.getmtime(src):
             exe = build_helper()
         _proc = subprocess.Popen([exe], stdin=subprocess.PIPE, stdout=subprocess.PIPE, text=True, bufsize=1)
         atexit.register(lambda: _proc.kill())
@@ -158,3 +159,21 @@ def run_driver(exe, d, start, out, fail_at=None, repeat=1, order=None, short=Fal
     if kind:
         cmd += ['--kind', kind]
     return run(cmd, timeout=timeout, mem_kb=4_000_000)
+
+
+def rust_lines(s):
+    n = int(call('lines_count', s))
+    return call('lines', s).split('\0') if n else []
+
+
+def rust_split_whitespace(s):
+    n = int(call('split_whitespace_count', s))
+    return call('split_whitespace', s).split('\0') if n else []
+
+
+_CLASS = ('is_alphabetic', 'is_numeric', 'is_alphanumeric', 'is_whitespace', 'is_uppercase', 'is_lowercase', 'is_control')
+
+
+def char_is(pred, ch):
+    """char::<pred>(ch) answered by the real std"""
+    return call('charclass', ch)[_CLASS.index(pred)] == '1'
